@@ -34,7 +34,8 @@ Prims == IF Rich
 
 Sizes(p) == IF ~Rich THEN {<<>>}
             ELSE IF p = "string" THEN {<<>>, <<5>>, <<2, 5>>, <<100>>}
-            ELSE IF p = "decimal" THEN {<<>>, <<6, 2>>, <<12, 0>>} ELSE {<<>>}
+            ELSE IF p = "decimal" THEN {<<>>, <<6, 2>>, <<12, 0>>}
+            ELSE IF p \in {"int", "int32", "int64"} THEN {<<>>, <<>>, <<12>>, <<2, 9>>} ELSE {<<>>}
 
 Wraps == IF Rich THEN {"", "set", "seq"} ELSE {""}
 Opts == IF Rich THEN BOOLEAN ELSE {FALSE}
